@@ -170,6 +170,12 @@ func corpus(o *hc.Out, dir string) {
 	dt := func() *table {
 		return tbl([]string{"k", "v"}, []cell{cS("r0"), cS("a")}, []cell{cS("r1"), cS("b")}, []cell{cS("r2"), cS("c")})
 	}
+	if pendingFixedAuto {
+		// a fixed-length file laid out for, and read with, AUTOMATIC positions stays readable that way through UPDATE + COMMIT
+		for _, woh := range []bool{false, true} {
+			diaRun(o, dir, dt(), with(option.FIXED, func(op *opts) { op.withoutHeader = woh }), true, text.UTF8, "dialect.fixed.automatic_positions.header_"+b01(!woh))
+		}
+	}
 	// fixed in /repo (00af35b): an updated CRLF file ends with CRLF
 	diaRun(o, dir, dt(), with(option.CSV, func(op *opts) { op.lb = text.CRLF }), true, text.AUTO, "fixed.F28.csv.crlf_file_updated")
 	diaRun(o, dir, dt(), with(option.LTSV, func(op *opts) { op.lb = text.CRLF }), true, text.AUTO, "fixed.F28.ltsv.crlf_file_updated")
